@@ -16,7 +16,7 @@ use vcommon::{CheckDef, ClassPlan, Outcome, Tier};
 pub static DEF: CheckDef = CheckDef {
     id: "C05",
     level: "exploration",
-    rule: "Client level: channel-heavy programs of 1..4 real clients (protocol 1.14..1.20) over the low-level channel API - create with either end claimed, capacities {1,2,4,5,16} (class client:small-credit: 1..4 on bounded transports <= 2), unbind / pass the cookie / bind / claim on another client, two claimants, cancelled claims, send n items, receive, close and drop of ends in every state - against a real broker on the deterministic simulator under a tape-chosen schedule policy/seed and transports (unbounded or bounded 1..16). Oracle: the k-th item returned by next_item is the k-th item accepted by start_send_item on that channel (exactly once, in order); at quiescence no task waits in next_item while more items were sent than received and the sender is alive, none waits in claim / close / establish / create_channel; no panic in the channel code. Non-trivial: as C06 (>= 2 clients, a drop racing with a counterpart).",
+    rule: "Client level: channel-heavy programs of 1..4 real clients (protocol 1.14..1.20) over the low-level channel API - create with either end claimed, capacities {1,2,4,5,16} (class client:small-credit: 1..4 on bounded transports <= 2), unbind / pass the cookie / bind / claim on another client, two claimants, cancelled claims, send n items (one producer in three polls Sender::poll_receiver_closed before every send_ready, like a select! loop), receive, close and drop of ends in every state - against a real broker on the deterministic simulator under a tape-chosen schedule policy/seed and transports (unbounded or bounded 1..16). Oracle: the k-th item returned by next_item is the k-th item accepted by start_send_item on that channel (exactly once, in order); at quiescence no task waits in next_item while more items were sent than received and the sender is alive, none waits in send_ready while the consumer has taken every item sent (credit deadlock), none waits in claim / close / establish / create_channel; no panic in the channel code. Non-trivial: as C06 (>= 2 clients, a drop racing with a counterpart).",
     assumptions: &[
         "shares programs, interpreter and quiescence oracles with C06; only channel-related verdicts are reported under C05 (others are counted as other-oracle:*)",
         "interleavings are explored at poll granularity of a single-threaded executor",
@@ -28,6 +28,7 @@ pub static DEF: CheckDef = CheckDef {
     floors: &[
         ("chan:items-flowed", 0.40),
         ("chan:item-order-checked>=2", 0.30),
+        ("chan:receiver-closed-polled-while-sending", 0.10),
         ("credit-topup:cap<=4", 0.15),
         ("credit:cap=1", 0.05),
         ("cross-client-channel", 0.40),
